@@ -77,6 +77,7 @@ type Thread struct {
 	started      bool
 	stalledUntil int64
 	daemon       bool // environment helper threads that are not leaks
+	wasBlocked   bool // parked on an operation that was not enabled when it was published
 	vc           vclock
 	nops         int
 	sig          uint64 // rolling hash of this thread's (site, op, clock) sequence
@@ -440,6 +441,20 @@ func (e *Exec) schedule(t *Thread) {
 			idx = e.choose(kind, len(en))
 		}
 		next := en[idx]
+		if next.wasBlocked && e.cfg.StallMenu && len(e.cfg.Stalls) > 0 && !e.poisoned && !e.ended {
+			// a goroutine that was blocked and can now proceed may be slow to wake up
+			next.wasBlocked = false
+			if k := e.choose(KStall, 1+len(e.cfg.Stalls)); k > 0 {
+				next.stalledUntil = e.now + e.cfg.Stalls[k-1]
+				what, site := "?", "?"
+				if next.pending != nil {
+					what, site = next.pending.what, next.pending.site
+				}
+				e.StallsTaken = append(e.StallsTaken, StallRec{Thread: next.ID, Site: site, What: "wakeup-" + what, MS: e.cfg.Stalls[k-1]})
+				continue
+			}
+		}
+		next.wasBlocked = false
 		if next == t {
 			return
 		}
@@ -478,6 +493,9 @@ func (e *Exec) point(o *op) {
 		}
 	}
 	t.pending = o
+	if o.kind != opNone && o.kind != opSettle && !e.enabled(t) {
+		t.wasBlocked = true
+	}
 	e.schedule(t)
 	t.pending = nil
 	t.nops++
